@@ -1,9 +1,14 @@
 package t0098
 
+type G2 struct {
+	F0x1x0 int64
+}
+
+type G1 struct {
+	F0x0 int32
+	F0x1 G2
+}
 
 type T struct {
-	F0 *int32
-	F1 *int64
-	F2 float32
-	F3 float64
+	F0 G1
 }
